@@ -45,8 +45,9 @@ ASSUMPTIONS = [
     'its weight-sum/degree clauses are evaluated against moments / volume',
     'excluded axes (raise or are unsupported on the unchanged tree): negative levels (TypeError in np.linspace), '
     'LagrangeGrid/BSplineGrid with modified_basis on sub-boxes and boundary=False (known findings), '
-    'set_boundaries on Leja/Lagrange/B-spline/modified-basis grids, sub-boxes off the dyadic lattice (isclose vs ==; the '
-    'domain [2^34, 2^34+1] where math.isclose misfires on lattice boxes is generated: known finding C08-isclose-relative-far-domain)',
+    'set_boundaries on Leja/Lagrange/B-spline/modified-basis grids, sub-boxes off the dyadic lattice (the boundary tests are tolerant: '
+    '|x - bound| <= 1e-8 |b - a| since 1502b9c; the domains [2^34, 2^34+1] and [1, 1+2^-40], where the earlier math.isclose tests misfired on '
+    'lattice boxes, are generated)',
     _c08_gen.ASSUMPTION,
 ]
 
@@ -98,7 +99,8 @@ def _cont(xs, ct):
     return list(xs)
 
 
-def make_grid(case, bnd=None, dom=None):
+def make_grid(case, bnd=None, dom=None, ab=None):
+    """ab: prebuilt (a, b) argument objects (the SAME objects are then handed to several constructors)"""
     import sparseSpACE.Grid as G
     fam = case['fam']
     ct = case.get('ct', 'list')
@@ -107,6 +109,8 @@ def make_grid(case, bnd=None, dom=None):
     b = [float(F(x)) for x in b0]
     if ct == 'np':
         a, b = _cont(a, 'np'), _cont(b, 'np')
+    if ab is not None:
+        a, b = ab
     bnd = case['bnd'] if bnd is None else bnd
     kw = {}
     if case.get('integ'):
@@ -154,16 +158,17 @@ def _functions():
     from sparseSpACE.Function import Function
 
     class Mono(Function):
-        def __init__(self, exps, m=1):
+        def __init__(self, exps, m=1, scale=1.0):
             super().__init__()
             self.exps = exps
             self.m = m
+            self.scale = scale
 
         def output_length(self):
             return self.m
 
         def eval(self, c):
-            r = 1.0
+            r = self.scale
             for x, k in zip(c, self.exps):
                 r *= float(x) ** k
             if self.m == 1:
@@ -220,10 +225,38 @@ def ref_rule(fam, level):
     return _REF[key]
 
 
-def observe(case, bnd=None, want_integrals=True, grid=None):
+SENTINEL = 12345.678
+
+
+def _snap(objs):
+    import copy
+    return [copy.deepcopy(o) for o in objs]
+
+
+def _same(x, y):
+    import numpy as np
+    if isinstance(x, np.ndarray) or isinstance(y, np.ndarray):
+        return isinstance(x, np.ndarray) and isinstance(y, np.ndarray) and x.dtype == y.dtype and x.shape == y.shape \
+            and np.array_equal(x, y)
+    return type(x) == type(y) and x == y
+
+
+def _state(g, lv):
+    """what the grid currently answers (for the observer / aliasing axes); an exception is an answer as well"""
+    try:
+        pts, wts = g.get_points_and_weights()
+        return ([tuple(float(x) for x in p) for p in pts], [float(w) for w in wts], [int(n) for n in g.levelToNumPoints(lv)],
+                [[float(x) for x in g.get_coordinates_dim(d)] for d in range(len(lv))])
+    except Exception as ex:
+        return ('raises', type(ex).__name__)
+
+
+def observe(case, bnd=None, want_integrals=True, grid=None, argbuf=None):
     """All observables of one grid on one sub-box; every stage records its own exception.
     grid: an existing Grid object that is REUSED for every call of this step (setCurrentArea, get_points_and_weights,
-    integrate); None = a fresh object."""
+    integrate); None = a fresh object.
+    argbuf: argument objects of the history that are REUSED (written in place) for every step: start / end are two views of
+    one parent array, the level vector one int array (case['args'] == 'shared')."""
     import numpy as np
     Mono, Delta = _functions()
     out = {}
@@ -234,6 +267,26 @@ def observe(case, bnd=None, want_integrals=True, grid=None):
     lv = _cont(lv0, ct)
     if ct == 'np':
         s, e = _cont(s, 'np'), _cont(e, 'np')
+    if argbuf is not None:
+        argbuf['box'][0, :] = s
+        argbuf['box'][1, :] = e
+        argbuf['lv'][:] = lv0
+        s, e, lv = argbuf['s'], argbuf['e'], argbuf['lv']      # the SAME three objects in every call of the history
+    pv = None
+    if case.get('probe') is not None:
+        pv = _cont([int(l) for l in case['probe']], ct)
+    bl = [bool(x) for x in case['bnds']] if case.get('bnds') is not None else None
+    names = ['start', 'end', 'levelvec', 'levelvec(announcement)', 'boundaries']
+    args = [s, e, lv, pv, bl]
+    snaps = _snap(args)
+    mutated = []
+
+    def check_args(stage):
+        for nm, o, sn in zip(names, args, snaps):
+            if o is not None and not _same(o, sn) and not any(m[1] == nm for m in mutated):
+                mutated.append([stage, nm, str(sn)[:80], str(o)[:80]])
+        if mutated:
+            out['mutated'] = mutated
     g = grid
     if g is None:
         try:
@@ -243,11 +296,13 @@ def observe(case, bnd=None, want_integrals=True, grid=None):
             return out
     try:
         if case.get('setb') and bnd is None:
-            g.set_boundaries([bool(x) for x in case['bnds']])
+            g.set_boundaries(bl)
+            check_args('set_boundaries')
         if case.get('none'):
             g.setCurrentArea(None, None, lv)
         else:
             g.setCurrentArea(s, e, lv)
+        check_args('setCurrentArea')
     except Exception as ex:
         out['exc'] = ['setCurrentArea'] + _exc(ex)
         return out
@@ -255,12 +310,12 @@ def observe(case, bnd=None, want_integrals=True, grid=None):
         out['num'] = [int(n) for n in g.levelToNumPoints(lv)]
         out['numwb'] = [int(n) for n in g.levelToNumPointsWithBoundary(lv)]
         out['num_attr'] = [int(n) for n in g.numPoints]
-        if case.get('probe') is not None:
-            pv = _cont([int(l) for l in case['probe']], ct)
+        if pv is not None:
             out['num_probe'] = [int(n) for n in g.levelToNumPoints(pv)]
             out['numwb_probe'] = [int(n) for n in g.levelToNumPointsWithBoundary(pv)]
             # the announcement must not disturb the current area
             out['num_after_probe'] = [int(n) for n in g.levelToNumPoints(lv)]
+        check_args('levelToNumPoints')
     except Exception as ex:
         out['exc'] = ['levelToNumPoints'] + _exc(ex)
         return out
@@ -276,6 +331,7 @@ def observe(case, bnd=None, want_integrals=True, grid=None):
                             for g1 in g.grids]
         except AttributeError:
             pass
+        check_args('get_points_and_weights')
     except Exception as ex:
         out['exc'] = ['get_points_and_weights'] + _exc(ex)
         return out
@@ -284,17 +340,19 @@ def observe(case, bnd=None, want_integrals=True, grid=None):
         return out
     ints = []
     m = int(case.get('m', 1))
+    fsc = int(case.get('fs', 0))       # the integrand is scaled by 2^fs; the result is scaled back exactly
     for exps in case.get('exps', []):
         try:
-            v = np.ravel(g.integrate(Mono(exps, m), lv, s, e))
+            v = np.ravel(g.integrate(Mono(exps, m, 2.0 ** fsc), lv, s, e))
             if len(v) != m:
                 out['exc'] = ['integrate', 'ShapeError', 'Integrator', 'integrate returns %d components for an integrand with %d' % (len(v), m)]
                 return out
-            ints.append([sx.rat(float(x)) for x in v])
+            ints.append([sx.rat(float(x)) / F(2) ** fsc for x in v])
         except Exception as ex:
             out['exc'] = ['integrate'] + _exc(ex)
             return out
     out['integrals'] = ints
+    check_args('integrate')
     if case['fam'] in HIER and case.get('effw', True) and len(out['points']) <= 90:
         # effective nodal weights of the hierarchical-basis integrator: integrate() is linear in the nodal values
         try:
@@ -305,6 +363,74 @@ def observe(case, bnd=None, want_integrals=True, grid=None):
             out['effw'] = eff
         except Exception as ex:
             out['exc'] = ['integrate'] + _exc(ex)
+            return out
+    if len(out['points']) > 3000 or not (case.get('observers') or case.get('alias')):
+        return out
+    # ---- public observer calls on the live object: the state must not change (axis e)
+    try:
+        before = _state(g, lv)
+        if case.get('observers'):
+            zero = [0] * len(lv0)
+            obs = [('isNested', lambda: g.isNested()), ('is_high_order_grid', lambda: g.is_high_order_grid()),
+                   ('is_global', lambda: g.is_global()), ('get_boundaries', lambda: g.get_boundaries()),
+                   ('get_mid_point', lambda: g.get_mid_point(float(s[0]), float(e[0]), 0)),
+                   ('levelToNumPointsWithBoundary', lambda: g.levelToNumPointsWithBoundary(lv)),
+                   ('get_num_points', lambda: g.get_num_points()), ('getCoordinate', lambda: g.getCoordinate(zero)),
+                   ('getWeight', lambda: g.getWeight(zero)), ('point_not_zero', lambda: g.point_not_zero(pts[0])),
+                   ('points_not_zero', lambda: g.points_not_zero(np.array(pts, dtype=float))),
+                   ('get_indexlist', lambda: g.get_indexlist()), ('getPoints', lambda: g.getPoints()),
+                   ('get_weights', lambda: g.get_weights())]
+            changed = []
+            for nm, fn in obs:
+                try:
+                    fn()
+                except Exception:
+                    continue
+                if _state(g, lv) != before:
+                    changed.append(nm)
+                    break
+            if changed:
+                out['observer_changed'] = changed
+            check_args('observers')
+        # ---- overwrite what getters returned with a sentinel: nothing the grid answers later may change (axis c)
+        if case.get('alias') and 'observer_changed' not in out:
+            getters = [('get_coordinates_dim', lambda: g.get_coordinates_dim(0)), ('get_coordinates', lambda: g.get_coordinates()),
+                       ('get_weights', lambda: g.get_weights()), ('get_points_and_weights', lambda: g.get_points_and_weights()),
+                       ('getPoints', lambda: g.getPoints()), ('levelToNumPoints', lambda: g.levelToNumPoints(lv)),
+                       ('levelToNumPointsWithBoundary', lambda: g.levelToNumPointsWithBoundary(lv)),
+                       ('get_boundaries', lambda: g.get_boundaries()), ('getCoordinate', lambda: g.getCoordinate([0] * len(lv0)))]
+
+            def smash(r):
+                if isinstance(r, np.ndarray):
+                    try:
+                        if r.dtype == object:
+                            for x in r:
+                                smash(x)
+                        else:
+                            r[...] = SENTINEL
+                    except ValueError:
+                        pass          # read-only: the caller cannot write
+                elif isinstance(r, list):
+                    for x in r:
+                        smash(x)
+                    r.clear()
+                elif isinstance(r, tuple):
+                    for x in r:
+                        smash(x)
+            aliased = []
+            for nm, fn in getters:
+                try:
+                    smash(fn())
+                except Exception:
+                    continue
+                if _state(g, lv) != before:
+                    aliased.append(nm)
+                    g.setCurrentArea(None, None, lv) if case.get('none') else g.setCurrentArea(s, e, lv)   # restore
+            if aliased:
+                out['alias'] = aliased
+            check_args('getters')
+    except Exception as ex:
+        out['exc'] = ['observers'] + _exc(ex)
     return out
 
 
@@ -338,22 +464,37 @@ def impl_run(hist):
             pg.get_points_and_weights()
         except Exception:
             pass
+    import numpy as np
     g = [None, None]
     g_on = [None, None]
     cerr = None
+    shared = hist.get('args') == 'shared'
+    dim = len(hist['a'])
+    argbuf = None
+    if shared:
+        box = np.zeros((2, dim))
+        argbuf = dict(box=box, s=box[0], e=box[1], lv=np.zeros(dim, dtype=int))
+    # constructor arguments: in shared mode the SAME a / b objects go to the object under test and to its boundary=True twin
+    doms = [(hist['a'], hist['b'])] + ([(hist['a2'], hist['b2'])] if 'a2' in hist else [])
+    abs_ = []
+    for a0, b0 in doms:
+        a = [float(F(x)) for x in a0]
+        b = [float(F(x)) for x in b0]
+        if steps[0].get('ct', 'list') == 'np':
+            a, b = np.array(a), np.array(b)
+        abs_.append((a, b))
+    ab_snap = _snap(abs_)
     try:
-        g[0] = make_grid(steps[0], dom=(hist['a'], hist['b']))
-        if 'a2' in hist:
-            g[1] = make_grid(steps[0], dom=(hist['a2'], hist['b2']))
+        for k, dm in enumerate(doms):
+            g[k] = make_grid(steps[0], dom=dm, ab=abs_[k])
     except Exception as ex:
         cerr = ['construct'] + _exc(ex)
     twin = ((not hist['bnd']) or any(st.get('bnds') is not None for st in hist['steps'])) \
         and hist['fam'] in ('trap', 'simpson', 'cc', 'mixed')
     if twin:
         try:
-            g_on[0] = make_grid(steps[0], True, dom=(hist['a'], hist['b']))
-            if 'a2' in hist:
-                g_on[1] = make_grid(steps[0], True, dom=(hist['a2'], hist['b2']))
+            for k, dm in enumerate(doms):
+                g_on[k] = make_grid(steps[0], True, dom=dm, ab=abs_[k] if shared else None)
         except Exception:
             g_on = [None, None]
     for c in steps:
@@ -361,9 +502,12 @@ def impl_run(hist):
             res.append({'exc': cerr})
             continue
         k = c.get('obj', 0)
-        out = observe(c, grid=g[k])
+        out = observe(c, grid=g[k], argbuf=argbuf)
         if twin and g_on[k] is not None:
-            out['on'] = observe(c, bnd=True, want_integrals=False, grid=g_on[k])
+            out['on'] = observe(dict(c, observers=False, alias=False), bnd=True, want_integrals=False, grid=g_on[k], argbuf=argbuf)
+        for (a, b), (sa, sb) in zip(abs_, ab_snap):      # the constructor's arguments belong to the caller as well
+            if not _same(a, sa) or not _same(b, sb):
+                out.setdefault('mutated', []).append(['history', 'a/b of the constructor', str((sa, sb))[:80], str((a, b))[:80]])
         if c.get('probe') is not None and 'exc' not in out:
             # oracle for the announcement at another level vector: what a FRESH object returns there
             try:
@@ -391,8 +535,13 @@ def impl_run(hist):
 
 # ----------------------------------------------------------------------------------------------- generator
 DOMAINS = [('0', '1'), ('0', '1'), ('0', '1'), ('-1', '2'), ('-3', '6'), ('1/2', '5/2'), ('-2', '-1'), ('0', '4'), ('-1', '1'),
-           ('1048576', '1048577')]      # the last one: far from the origin, still outside the reach of math.isclose's relative tolerance
-FAR_DOMAIN = ('17179869184', '17179869185')     # [2^34, 2^34+1]: isclose(start, a) is true for EVERY sub-box (known finding)
+           ('1048576', '1048577'),                 # far from the origin, still outside the reach of math.isclose's relative tolerance
+           ('0', '1/1073741824'),                  # tiny: [0, 2^-30]
+           ('1073741824', '1073742848')]           # large and far: [2^30, 2^30 + 2^10]
+# domains on which math.isclose(start, a) (relative to the coordinate) is true for lattice sub-boxes that do NOT touch (finding
+# C08-isclose-relative-far-domain, repaired in /repo by 1502b9c: one domain-relative test): far [2^34, 2^34+1], tiny next to 1: [1, 1 + 2^-40]
+MISFIRE_DOMAINS = [('17179869184', '17179869185'), ('1', '1099511627777/1099511627776')]
+FAR_DOMAIN = MISFIRE_DOMAINS[0]
 
 
 def misfire(case):
@@ -481,7 +630,7 @@ def gen_case(rng, tier):
             bnd = False
     doms = [tuple(F(x) for x in rng.choice(DOMAINS)) for _ in range(dim)]
     if fam in ('trap', 'trapmod', 'simpson', 'cc') and rng.random() < 0.04:
-        doms[rng.randrange(dim)] = tuple(F(x) for x in FAR_DOMAIN)
+        doms[rng.randrange(dim)] = tuple(F(x) for x in rng.choice(MISFIRE_DOMAINS))
     hist.update(fam=fam, bnd=bool(bnd), a=[fs(d[0]) for d in doms], b=[fs(d[1]) for d in doms])
     if p is not None:
         hist['p'] = p
@@ -495,6 +644,13 @@ def gen_case(rng, tier):
         hist['ct'] = 'tuple'
     if rng.random() < 0.3:
         hist['m'] = rng.choice([2, 3])
+    if rng.random() < 0.3:
+        hist['args'] = 'shared'      # the same argument objects (views of one parent array) for every call of the history
+        hist['ct'] = 'np'
+    if rng.random() < 0.45:
+        hist['observers'] = True
+    if rng.random() < 0.35:
+        hist['alias'] = True
     two = fam not in HIER and fam != 'leja' and rng.random() < 0.25
     doms2 = doms
     if two:
@@ -522,6 +678,10 @@ def gen_case(rng, tier):
         if rng.random() < 0.12 and fam not in HIER:
             st['none'] = True
             st['s'], st['e'] = [fs(d[0]) for d in dd], [fs(d[1]) for d in dd]
+        if rng.random() < 0.3:
+            st['fs'] = rng.choice([-60, -20, 30])     # magnitude of the integrand
+        if rng.random() < 0.25:
+            st['m'] = rng.choice([1, 2, 3])           # every call draws its own integrand shape
         if rng.random() < 0.45 and fam not in HIER and fam != 'leja':
             st['probe'] = [rng.randrange(0 if a0 else 1, ml + 2) for ml, a0 in zip(maxlevels, allow0)]
         st['exps'] = gen_exps(rng, dict(hist, **st))
@@ -681,6 +841,7 @@ CORPUS = [
     H('simpson', False, ['0'], ['1'], [(['1/2'], ['1'], [0], [[0], [1]])]),
     H('lagrange', True, ['0'], ['4'], [(['1'], ['4'], [2], [[0], [4]])], p=5),
     H('trap', False, [FAR_DOMAIN[0]], [FAR_DOMAIN[1]], [(['34359738369/2'], ['68719476739/4'], [2], [[0], [1]])]),
+    H('trap', True, ['0'], ['1'], [(['1/4'], ['1/2'], [2], [[0], [1]])], alias=True),
     # regression histories that must agree: one object swept over several sub-boxes / level vectors
     H('trap', False, ['0'], ['1'], [(['0'], ['1/2'], [2], [[0], [1]]), (['1/4'], ['1/2'], [2], [[0], [1]]),
                                     (['1/2'], ['1'], [3], [[0], [1]]), (['0'], ['1'], [1], [[0], [1]])]),
@@ -718,6 +879,15 @@ CORPUS = [
       mixed=['trap', 'gl', 'cc'], mbnd=[False, False, True]),
     H('cc', True, ['-1'], ['2'], [(['-1'], ['1/2'], [1], [[0], [2]]), (['1/2'], ['2'], [2], [[0], [4]])], integ='old', ct='tuple'),
     H('leja', True, ['0'], ['4'], [(['1'], ['3'], [2], [[0], [4]]), (['0'], ['4'], [1], [[0], [2]])], integ='old'),
+    # lessons sweep: the same argument objects for every call, observer calls between, magnitudes
+    H('simpson', False, ['0', '-1'], ['1', '2'], [(['0', '1/2'], ['1/2', '2'], [2, 3], [[0, 0], [3, 3]]),
+                                                  (['1/4', '-1'], ['1/2', '1/2'], [3, 1], [[0, 0], [3, 1]]),
+                                                  (['0', '-1'], ['1', '2'], [1, 2], [[0, 0], [1, 1]])],
+      args='shared', ct='np', observers=True, steps_extra=[dict(fs=-60), dict(fs=30, m=2, probe=[4, 2]), dict()]),
+    H('cc', True, ['0'], ['1/1073741824'], [(['1/4294967296'], ['1/2147483648'], [3], [[0], [8]]),
+                                            (['0'], ['1/1073741824'], [2], [[0], [4]])], observers=True, steps_extra=[dict(fs=30), dict()]),
+    H('gl', False, ['1073741824', '0'], ['1073742848', '1'], [(['1073741952', '1/2'], ['1073742336', '1'], [1, 2], [[0, 0], [3, 5]])],
+      args='shared', ct='np'),
     H('simpson', True, ['0', '-1'], ['1', '2'], [(['1/4', '-1'], ['1/2', '1/2'], [3, 2], [[0, 0], [3, 3]])],
       pre=[dict(fam='trap', bnd=True, s=['1/4', '-1'], e=['1/2', '1/2'], lv=[3, 2])]),
 ]
@@ -866,7 +1036,30 @@ def oracle(case, r):
                                 'integrate() of the monomial with exponents %s returns %.17g, exact %.17g' % (exps, float(v), float(ex))))
     # a failure within the guaranteed degree is the root failure
     res.sort(key=lambda x: x[0] != 'moment-residual')
+    if not res:
+        res = hygiene(r)
     return res[:1]
+
+
+def hygiene(r):
+    """lessons (a), (c), (e): the library must not modify the caller's argument objects, must not hand out its internal state,
+    and public observer calls must not change what the grid answers"""
+    if r.get('mutated'):
+        st, nm, before, after = r['mutated'][0]
+        return [('argument-mutated', dict(argument=nm, stage=st), 'argument object %s was modified by the library during %s: %s -> %s'
+                 % (nm, st, before, after))]
+    if r.get('on') and r['on'].get('mutated'):
+        st, nm, before, after = r['on']['mutated'][0]
+        return [('argument-mutated', dict(argument=nm, stage=st), 'argument object %s was modified by the library during %s: %s -> %s'
+                 % (nm, st, before, after))]
+    if r.get('observer_changed'):
+        return [('observer-changes-state', dict(observer=r['observer_changed'][0]),
+                 'points / weights / counts answered by the grid differ after the public call %s()' % r['observer_changed'][0])]
+    if r.get('alias'):
+        return [('result-aliases-internal-state', dict(getters='+'.join(sorted(r['alias']))),
+                 'after overwriting what %s returned, the grid answers other points / weights / counts (without a new setCurrentArea)'
+                 % ', '.join(r['alias']))]
+    return []
 
 
 # ----------------------------------------------------------------------------------------------- comparison
@@ -1173,14 +1366,7 @@ def judge(chk, case, st, r, mres, report_case=None):
             if sx.is_err(m) or m[1] != 1:
                 diffs.append(('checker:inside_box', 'inside_box rejects a point returned by the implementation'))
     # ---- verdict
-    if (orc or diffs) and misfire(case) and not all(dimbnds(case)):
-        # root cause named structurally: whatever the manifestation (count, alignment, restriction clause, moments)
-        text = orc[0][2] if orc else 'correspondence differs: %s' % diffs[0][1][:300]
-        chk.violation('oracle:grid_contract', 'isclose-misfire', dict(sig, misfire=True), rc,
-                      dict(property_predicate=text, manifestation=(orc[0][0] if orc else diffs[0][0]),
-                           correspondence=[d[0] for d in diffs]), failing_input=bool(orc))
-        nv += 1
-    elif orc:
+    if orc:
         kind, extra, text = orc[0]
         chk.violation('oracle:grid_contract', kind, dict(sig, **extra), rc,
                       dict(property_predicate=text, correspondence=[d[0] for d in diffs], detail=[d[1][:400] for d in diffs][:4]))
@@ -1199,7 +1385,7 @@ def judge(chk, case, st, r, mres, report_case=None):
 def run_cases(chk, hists):
     """Runs the histories on the implementation (one object per history) and the model (per step).
     Returns per history: (status, [step results]), [per-step dict tag -> model result]."""
-    impl = run_impl(impl_run, hists, limit=240)
+    impl = run_impl(impl_run, hists, limit=120)
     mcases, owner = [], []
     seen = {}
     for i, (h, (st, rs)) in enumerate(zip(hists, impl)):
@@ -1224,6 +1410,45 @@ def run_cases(chk, hists):
     return impl, per
 
 
+def _known(chk, kind, sig):
+    try:
+        findings = json.load(open(os.path.join(os.path.dirname(os.path.dirname(os.path.dirname(os.path.dirname(os.path.abspath(__file__))))),
+                                               'known_findings.json')))
+    except (OSError, ValueError):
+        return False
+    for f in findings:
+        if f.get('property') != chk.pid or f.get('status') != 'known':
+            continue
+        if f['signature']['kind'] == kind and all((sig.get(k) in val) if isinstance(val, list) else (sig.get(k) == val)
+                                                  for k, val in f['signature'].get('where', {}).items()):
+            return True
+    return False
+
+
+def failure_kinds(chk, h, rs, only_new=False):
+    """per step: kind of the property-predicate failure (None = holds); only_new: failures matching a known finding count as None"""
+    out = []
+    for c, r in zip(steps_of(h), rs):
+        o = oracle(c, r)
+        k = o[0][0] if o else None
+        if k is not None and only_new and _known(chk, k, dict(sig_of(c), **o[0][1])):
+            k = None
+        out.append(k)
+    return out
+
+
+def run_solo(hists, limit=120):
+    """every history in a process of its own (forked from the harness, which has not imported the library): no state of
+    earlier cases can be involved"""
+    import multiprocessing as mp
+    from ..impl import _call, _init_worker
+    if not hists:
+        return []
+    ctx = mp.get_context('fork')
+    with ctx.Pool(min(NPROC, len(hists)), initializer=_init_worker, maxtasksperchild=1) as pool:
+        return pool.map(_call, [(impl_run, h, limit) for h in hists], chunksize=1)
+
+
 def judge_history(chk, h, st, rs, per):
     """Judges every step of a history; the reported case is the history up to (and including) the failing step."""
     if st != 'ok':
@@ -1245,9 +1470,27 @@ def run(chk):
     n = chk.n(300, 5000)
     hists = [dict(c) for c in CORPUS] + big_cases(chk.rng) + [gen_case(chk.rng, chk.tier) for _ in range(n)]
     impl, per = run_cases(chk, hists)
+    # lesson (g): a NEW violation found in a pooled worker may depend on state that EARLIER cases left in that process (class-level
+    # caches); every such history is re-run alone in a fresh process - only what reproduces there is a replayable failing input
+    sus = [i for i, (h, (st, rs)) in enumerate(zip(hists, impl)) if st == 'ok' and any(failure_kinds(chk, h, rs, only_new=True))]
+    solo = run_solo([hists[i] for i in sus[:60]])
+    process_state = {}
+    for i, (st2, rs2) in zip(sus, solo):
+        if st2 == 'ok' and failure_kinds(chk, hists[i], rs2, only_new=True) != failure_kinds(chk, hists[i], impl[i][1], only_new=True):
+            process_state[i] = failure_kinds(chk, hists[i], rs2, only_new=True)
+    chk.extra['rerun_alone_in_fresh_process'] = dict(histories=len(sus), not_reproduced=len(process_state))
     keys, samples = [], []
     nchk = nsteps = 0
-    for h, (st, rs), mres in zip(hists, impl, per):
+    for idx, (h, (st, rs), mres) in enumerate(zip(hists, impl, per)):
+        if idx in process_state:
+            kinds = failure_kinds(chk, h, rs, only_new=True)
+            chk.violation('oracle:grid_contract', 'process-state-dependent',
+                          dict(sig_of(steps_of(h)[0]), pooled=str(kinds), alone=str(process_state[idx])), h,
+                          dict(property_predicate='in a worker process that had run other cases before, the steps of this history fail with %s; '
+                               'alone in a fresh process they give %s: state shared across instances (class-level attribute / cache) is involved; '
+                               'the history alone is NOT a failing input' % (kinds, process_state[idx])), failing_input=False)
+            chk.count('family=%s' % h['fam'])
+            continue
         chk.count('family=%s' % h['fam'])
         chk.count('dim=%d' % len(h['a']))
         chk.count('boundary=%s' % h['bnd'])
@@ -1257,6 +1500,9 @@ def run(chk):
         chk.count('integrand_output_length=%d' % h.get('m', 1))
         chk.count('objects_in_history=%d' % (2 if 'a2' in h else 1))
         chk.count('prelude_on_sibling_classes=%s' % ('pre' in h))
+        chk.count('argument_objects=%s' % h.get('args', 'fresh per call'))
+        chk.count('observer_calls_between=%s' % bool(h.get('observers')))
+        chk.count('returned_objects_overwritten=%s' % bool(h.get('alias')))
         if h['fam'] == 'gl':
             chk.count('gl_normalize=%s' % bool(h.get('norm')))
         if h['fam'] == 'mixed':
@@ -1269,7 +1515,10 @@ def run(chk):
             mp = max(npwb_of(c))
             chk.count('points_per_dim=%s' % ('<=17' if mp <= 17 else '<=65' if mp <= 65 else '<=257' if mp <= 257 else '>=513'))
             chk.count('level0=%s' % (0 in c['lv']))
-            chk.count('domain=%s' % ('2^34 (isclose misfires)' if misfire(c) else 'far 2^20' if any(F(a) >= 2 ** 20 for a in c['a']) else 'near origin'))
+            chk.count('integrand_scale=2^%d' % c.get('fs', 0))
+            chk.count('integrand_components(step)=%d' % c.get('m', 1))
+            chk.count('domain=%s' % ('math.isclose would misfire (2^34 / 1+2^-40)' if misfire(c) else 'far (2^20, 2^30)' if any(F(a) >= 2 ** 20 for a in c['a'])
+                                     else 'tiny (2^-30)' if any(F(b) - F(a) < F(1, 2 ** 20) for a, b in zip(c['a'], c['b'])) else 'near origin'))
             chk.count('flags=%s' % ('per-dimension' if (c.get('bnds') is not None and len(set(c['bnds'])) > 1) else
                                     'toggled' if c.get('bnds') is not None else 'constructor'))
             chk.count('area=%s' % ('None' if c.get('none') else 'explicit'))
